@@ -13,6 +13,7 @@ import (
 	"os"
 	"path/filepath"
 	"reflect"
+	"sort"
 	"strings"
 
 	"github.com/mattn/anko/env"
@@ -131,12 +132,45 @@ func c11Native(v interface{}, t reflect.Type) (out reflect.Value, ok bool) {
 	return rv, false
 }
 
+// like c10ProjT, but a nil slice or map is not an empty one
+func c11Proj(x interface{}) string {
+	if x == nil {
+		return "nil"
+	}
+	if _, ok := x.(error); ok {
+		return c10ProjT(x)
+	}
+	rv := reflect.ValueOf(x)
+	switch rv.Kind() {
+	case reflect.Slice:
+		if rv.IsNil() {
+			return rv.Type().String() + "(nil)"
+		}
+		var p []string
+		for i := 0; i < rv.Len(); i++ {
+			p = append(p, c11Proj(rv.Index(i).Interface()))
+		}
+		return rv.Type().String() + "[" + strings.Join(p, ",") + "]"
+	case reflect.Map:
+		if rv.IsNil() {
+			return rv.Type().String() + "(nil)"
+		}
+		var p []string
+		for _, k := range rv.MapKeys() {
+			p = append(p, c11Proj(k.Interface())+"=>"+c11Proj(rv.MapIndex(k).Interface()))
+		}
+		sort.Strings(p)
+		return rv.Type().String() + "{" + strings.Join(p, ",") + "}"
+	}
+	return c10ProjT(x)
+}
+
 type c11Host struct{ log []string }
 
 func (h *c11Host) rec(name string, args ...interface{}) {
 	var p []string
 	for _, a := range args {
-		p = append(p, c10ProjT(a))
+		p = append(p, c11Proj(a))
 	}
 	h.log = append(h.log, name+"("+strings.Join(p, ", ")+")")
 }
@@ -204,7 +238,7 @@ func c11RunSrc(src string) (string, []string) {
 			res = "error"
 			return
 		}
-		res = c10ProjT(v)
+		res = c11Proj(v)
 	}()
 	return res, h.log
 }
@@ -295,7 +329,7 @@ func c11Cases(rnd *Rand) []c11Case {
 			conv, ok := c11Native(v.val, ty.t)
 			want := " => error"
 			if ok {
-				p := c10ProjT(conv.Interface())
+				p := c11Proj(conv.Interface())
 				if !conv.IsValid() || (conv.Kind() == reflect.Interface && conv.IsNil()) {
 					p = "nil"
 				}
@@ -307,7 +341,7 @@ func c11Cases(rnd *Rand) []c11Case {
 			}
 		}
 	}
-	p := c10ProjT
+	p := c11Proj
 	// 2. call shapes
 	add("fixed2(1, \"x\")", "fixed2("+p(int64(1))+", "+p("x")+") => "+p(int64(1)), "fixed function, plain call")
 	add("fixed2(1)", " => error", "too few arguments")
@@ -319,13 +353,13 @@ func c11Cases(rnd *Rand) []c11Case {
 	add("fixed3(1, nil, [2])", "fixed3("+p(int64(1))+", nil, "+p([]interface{}{int64(2)})+") => "+p([]interface{}{int64(2)}), "interface parameters receive the values unchanged")
 	add("fixed0()", "fixed0() => "+p(int64(0)), "no parameters")
 	add("fixed0(1)", " => error", "arguments to a function without parameters")
-	add("var0()", "var0("+p([]int64(nil))+") => "+p(int64(0)), "variadic function, no variadic arguments")
+	add("var0()", "var0("+p([]int64{})+") => "+p(int64(0)), "variadic function, no variadic arguments (reflect.Call passes an empty slice)")
 	add("var0(1, 2, 3)", "var0("+p([]int64{1, 2, 3})+") => "+p(int64(3)), "variadic function, plain call")
 	add("var0(1, 2.5)", "var0("+p([]int64{1, 2})+") => "+p(int64(2)), "variadic tail converted element by element")
 	add("var0(1, \"x\")", " => error", "variadic tail element without a conversion")
 	add("var0([1, 2]...)", "var0("+p([]int64{1, 2})+") => "+p(int64(2)), "variadic function, spread call")
 	add("var0([]...)", "var0("+p([]int64{})+") => "+p(int64(0)), "variadic function, empty spread")
-	add("var1(\"a\")", "var1("+p("a")+", "+p([]interface{}(nil))+") => "+p(int64(0)), "variadic function with a fixed parameter")
+	add("var1(\"a\")", "var1("+p("a")+", "+p([]interface{}{})+") => "+p(int64(0)), "variadic function with a fixed parameter")
 	add("var1(\"a\", 1, nil, [2])", "var1("+p("a")+", "+p([]interface{}{int64(1), nil, []interface{}{int64(2)}})+") => "+p(int64(3)), "variadic interface tail")
 	add("var1(\"a\", [1, 2]...)", "var1("+p("a")+", "+p([]interface{}{int64(1), int64(2)})+") => "+p(int64(2)), "variadic function with a fixed parameter, spread call")
 	add("var1()", " => error", "missing fixed parameter of a variadic function")
@@ -373,6 +407,13 @@ func c11Cases(rnd *Rand) []c11Case {
 	add("applyv(func(xs) { return len(xs) })", "applyv() => "+p(int64(3)), "callback of a variadic func type receives the variadic slice")
 	add("t = 0; each([1, 2, 3], func(x) { t += x }); t", "each("+p([]int64{1, 2, 3})+") => "+p(int64(6)), "callback invoked with the arguments Go passes")
 	add("apply(1, 5)", " => error", "a non-function where a func is wanted")
+	add("each([1, 2, 3], func(x) { throw \"bad\" })", "each("+p([]int64{1, 2, 3})+") => error", "an error inside a result-less callback is an error of the call")
+	add("each([1], func(x) { return nosuch })", "each("+p([]int64{1})+") => error", "an error inside a result-less callback is an error of the call")
+	add("r = \"none\"; try { each([1, 2], func(x) { throw \"bad\" }) } catch e { r = \"caught\" }; r", "each("+p([]int64{1, 2})+") => "+p("caught"), "the error of a result-less callback can be caught around the call")
+	add("n = 0; each([1, 2, 3], func(x) { n += 1; if x == 2 { throw \"stop\" } }); n", "each("+p([]int64{1, 2, 3})+") => error", "an error inside the callback ends the enclosing call")
+	add("id_sl_int64([])", "id_sl_int64("+p([]int64{})+") => "+p([]int64{}), "an empty list arrives as an empty, non-nil slice")
+	add("id_sl_sl_int64([[1], []])", "id_sl_sl_int64("+p([][]int64{{1}, {}})+") => "+p([][]int64{{1}, {}}), "empty inner lists arrive as empty, non-nil slices")
+	add("id_map_string_int64({})", "id_map_string_int64("+p(map[string]int64{})+") => "+p(map[string]int64{}), "an empty map arrives as an empty, non-nil map")
 	return out
 }
 
